@@ -62,7 +62,10 @@ Next ==
            start == rec.ev.kind = "init"
            g0    == IF start THEN GhostInit(DOMAIN after) ELSE gh
            b0    == IF start THEN after ELSE cur
-           evx   == IF "acts" \in DOMAIN rec.ev THEN [rec.ev EXCEPT !.acts = {ActOf(rec.ev.acts[k]) : k \in 1..Len(rec.ev.acts)}] ELSE rec.ev
+           ev0   == IF "acts" \in DOMAIN rec.ev THEN [rec.ev EXCEPT !.acts = {ActOf(rec.ev.acts[k]) : k \in 1..Len(rec.ev.acts)}] ELSE rec.ev
+           evx   == IF "done" \in DOMAIN rec /\ "done" \notin DOMAIN ev0
+                    THEN ev0 @@ [done |-> {[n |-> rec.done[k].n, op |-> rec.done[k].op, res |-> rec.done[k].err, k |-> k] : k \in 1..Len(rec.done)}]
+                    ELSE ev0
            g1    == GhostStep(g0, b0, after, evx, DOMAIN after)
            seen  == IF start THEN {} ELSE {v[1] : v \in {w \in viol : w[2] = rec.sched}}
            new   == Failed(g1, after) \ seen
